@@ -3,6 +3,9 @@
 import json, sys
 pid = sys.argv[1]
 n = int(sys.argv[2]) if len(sys.argv) > 2 else 2
+start = int(sys.argv[3]) if len(sys.argv) > 3 else 1   # index of the first change (m<start>, m<start+1>, ...)
+avoid = sys.argv[4:]                                     # one-line descriptions of changes that already exist
+names = ["m%d" % (start + i) for i in range(n)]
 p = [json.loads(l) for l in open('/verif/properties.jsonl') if json.loads(l)['id'] == pid][0]
 wt = "/tmp/wt/%s" % pid
 print(f"""You are helping to evaluate a verification effort for the Python workflow engine insitro/redun. Your job is to act as a
@@ -33,12 +36,14 @@ Requirements for each change:
    FAILS with the change applied and PASSES on the unchanged tree, showing the property being violated through redun's
    public behaviour.
 
-Deliverables - create these files (the directory /tmp/wt/out/{pid}/ may need creating):
-   /tmp/wt/out/{pid}/m1/patch.diff   (output of `git diff` in the worktree for change 1, applies with `git apply` to a clean tree)
-   /tmp/wt/out/{pid}/m1/demo.py      (the demonstration; must run with `cd <tree> && /venv/bin/python demo.py` from the tree root, or say how)
-   /tmp/wt/out/{pid}/m1/notes.md     (what the change is, why it breaks the property, what it needs in order to manifest,
+Deliverables - your {n} changes are named {', '.join(names)}; create these files (the directory /tmp/wt/out/{pid}/ may need creating):
+   /tmp/wt/out/{pid}/{names[0]}/patch.diff   (output of `git diff` in the worktree for change 1, applies with `git apply` to a clean tree)
+   /tmp/wt/out/{pid}/{names[0]}/demo.py      (the demonstration; must run with `cd <tree> && /venv/bin/python demo.py` from the tree root, or say how)
+   /tmp/wt/out/{pid}/{names[0]}/notes.md     (what the change is, why it breaks the property, what it needs in order to manifest,
                                        which tests you ran and their result)
-   ... and the same under m2/ (and m3/ ... if asked for more).
+   ... and the same under {'/, '.join(names[1:])}/.
 Between changes, restore the worktree with `git -C {wt} checkout -- .` so that each patch is independent and applies to the clean
 tree. Leave the worktree clean when you finish. Make the {n} changes different in kind (different function / different mechanism).
+Never use `git stash` (the worktree shares its stash with other worktrees).
+{("Other people already produced the following changes for this property - yours must be DIFFERENT in mechanism and location:" + chr(10) + chr(10).join("  - " + a for a in avoid)) if avoid else ""}
 In your final answer, summarise each change in two or three sentences.""")
